@@ -16,7 +16,12 @@ from hypothesis import strategies as st
 
 # constants: (python literal for sympy, mp constructor)
 CONSTS = [1, 2, 3, -1, -2, 0.5, 2.5, -9.81, "1/3", 0.1, 4, -0.25, "2/7", 10]
-N_CONST = len(CONSTS)
+N_CONST = len(CONSTS)  # the random leaves draw from these
+# exact integers beyond a double's 53-bit mantissa, both signs (used by explicit templates only, never by random leaves):
+# speed-of-light squared, powers of ten, 2**60+1 - literals a model may legitimately contain (D14 class)
+BIG_FIRST = N_CONST
+CONSTS = CONSTS + [10**17, -(10**17), 299792458**2, -(299792458**2), 2**60 + 1, -(2**60 + 1)]
+N_BIG = len(CONSTS) - BIG_FIRST
 
 UNARY = ("sin", "cos", "tanh", "atan")
 BOUNDED = ("sin", "cos", "tanh")
